@@ -166,7 +166,14 @@ def make_inputs(rng, kind):
         n = int(rng.integers(10, 14))      # two-digit record labels
     if kind == "protein":
         letters = "ACDEFGHIKLMNPQRSTVWY"
-        return [seqmod.ProteinSequence("".join(rng.choice(list(letters), size=int(rng.integers(1, 12))))) for _ in range(n)], None
+        texts = ["".join(rng.choice(list(letters), size=int(rng.integers(1, 12)))) for _ in range(n)]
+        if rng.random() < 0.25:
+            # another sequence type over a letter alphabet that the amino acid alphabet extends (its first 20 symbols):
+            # documented to be aligned as protein, without mapping
+            alph = seqmod.LetterAlphabet(letters)
+            assert seqmod.ProteinSequence.alphabet.extends(alph)
+            return [seqmod.GeneralSequence(alph, t) for t in texts], None
+        return [seqmod.ProteinSequence(t) for t in texts], None
     if kind == "nucleotide":
         return [seqmod.NucleotideSequence("".join(rng.choice(list("ACGT"), size=int(rng.integers(1, 12))))) for _ in range(n)], None
     # mapped general alphabet with custom matrix
@@ -421,8 +428,13 @@ class Case:
                 if not isinstance(raised, OSError):
                     ctx.fail("lifecycle_automaton", "launch failure surfaced as %s: %s" % (type(raised).__name__, raised))
                 ctx.exc(raised)
+                # the life cycle is concluded: the wrapper is CANCELLED and the later calls of the sequence follow that
+                # row of the table (get_command() still tells what could not be launched)
                 self.ended = "launch_failed"
-                self.state = "ENDED"
+                self.state = "CANCELLED"
+                real = app._state.name
+                if real != self.state:
+                    ctx.fail("lifecycle_automaton", "after a failed launch the wrapper is in state %s, automaton %s" % (real, self.state))
                 return
             if raised is not None:
                 raise raised
@@ -502,6 +514,14 @@ class Case:
                 d = rng.uniform(0.1, 1.0, size=(n, n))
                 d = (d + d.T) / 2
                 np.fill_diagonal(d, 0)
+                how = int(rng.integers(4))
+                if how == 1:
+                    d = d.astype(np.float32)
+                elif how == 2:
+                    d = np.rint(d * 20).astype(np.int64)          # difference counts
+                elif how == 3:
+                    d = np.asfortranarray(np.rint(d * 20).astype(np.uint8))
+                self.ctx.op("clustalo_distance_matrix_%s" % d.dtype)
                 app.set_distance_matrix(d)
             self.ctx.op("clustalo_setter_" + which)
         elif w == "muscle3":
@@ -949,8 +969,15 @@ def _probe_mafft_clean_up(ctx):
                      ("mafft", "ok", ("start", "cancel")), ("mafft", "hang", ("start", "join_timeout"))])
 
 
+def _probe_get_command_after_failed_launch(ctx):
+    """S85: after a launch that failed (exec dir / executable missing) the wrapper is CANCELLED, where get_command() is allowed."""
+    _run_probe(ctx, [(w, b, ("start", "get_command", "get_app_state", "get_command")) for w in ("echo", "clustalo", "muscle5")
+                     for b in ("bad_exec_dir", "missing_binary")])
+
+
 PROBES = {
     "join_evaluate_fails": _probe_join_evaluate_fails,
     "launch_failure": _probe_launch_failure,
+    "get_command_after_failed_launch": _probe_get_command_after_failed_launch,
     "mafft_clean_up": _probe_mafft_clean_up,
 }
